@@ -440,6 +440,13 @@ def _one_history(ctx, rep, rng, path, model_ok, hi, script=None):
                 got = t.time_travel(timestamp=q)
                 goti = None if got is None else got.snapshot_id
                 rep.evaluations += 1
+                if not monotone and goti != want and not getattr(rep, "_stepback_reported", False):
+                    # the statement read literally ("the most recently committed retained snapshot not newer than the requested time")
+                    # fails here: a listed finding (known_findings.json), Lean witness lookup_by_timestamp_stepback_refuted
+                    rep._stepback_reported = True
+                    rep.violate("C09:timestamp-lookup-after-clock-stepback-prefers-later-timestamp",
+                                f"after {kind} (clock stepped back between commits): time_travel(timestamp={q}) → #{h.snap_ord.get(goti)} ; "
+                                f"most recently committed retained snapshot not newer: #{h.snap_ord.get(want)}", case)
                 if not monotone:
                     # a clock that stepped back: "most recently committed" and "latest timestamp" part ways; demand only what both readings
                     # share — an answer exists iff some retained snapshot is not newer than q, it is not newer than q, and no retained
